@@ -23,9 +23,11 @@ CHECKS = {
         note="Trusts the atom table's dimension vectors and compiler reflection of enumerators.",
         ref="3/C06"),
     "C07": dict(
-        technique="runtime monitor: exhaustive dump of consistent-unit and related-system look-ups decided with exact rationals",
+        technique="runtime monitor: exhaustive dump of consistent-unit and related-system look-ups decided with exact rationals, plus a binary128 reference monitor over the running conversions",
         text="All 4x37 consistent-unit look-ups and all 514 reverse look-ups are executed and compared with the exact rational product of "
-             "the system's base units; the finite space is enumerated completely.",
+             "the system's base units; the finite space is enumerated completely. In addition values in each system's base units are "
+             "combined by plain arithmetic, converted by the library from the consistent unit, and compared with the same arithmetic "
+             "on the library-converted base values (no table of the harness involved).",
         note="Trusts the atom table's exact magnitudes; base units are taken from the library and cross-checked against the system's abbreviation.",
         ref="3/C07"),
     "C08": dict(
